@@ -398,5 +398,5 @@ func init() {
 	}})
 }
 
-var robustWeights = Weights{"cmdline": 55, "write-new": 8, "write-meta": 3, "modify": 4, "remove-file": 3, "rmdir": 2, "add": 8, "commit": 6, "rm": 2,
+var robustWeights = Weights{"cmdline": 55, "dir2file": 2, "file2dir": 1, "write-new": 8, "write-meta": 3, "modify": 4, "remove-file": 3, "rmdir": 2, "add": 8, "commit": 6, "rm": 2,
 	"branch": 2, "branch-r": 2, "branch-d": 1, "switch-c": 2, "switch": 1, "reset": 3, "add-dot": 1, "switch-c-meta": 2}
